@@ -22,12 +22,12 @@ def run(ctx):
     import json
     d = json.loads(so) if so.strip() else {"data": {}, "stats": {}}
     gd = common.gendir("C10")
-    gw = d["data"].get("entry_global_writes") or []
+    gw = (d["data"].get("entry_global_writes") or []) + (d["data"].get("lint_global_writes") or [])
     locks = d["data"].get("lock_ops") or []
     ops = [l.split(" ")[1] for l in locks]
     with open(os.path.join(gd, "Obl_C10_static.v"), "w") as f:
         f.write("From ZL Require Import Base.Bytes Framework.Conc Props.C10.\nFrom Coq Require Import List Bool.\nImport ListNotations.\n")
-        f.write("(* stores to package-level state reachable from Lint*Ex and the registry read API (Names, Sources, ByName, BySource, Lints, Filter, WriteJSON, ...) *)\n")
+        f.write("(* stores to package-level state reachable from Lint*Ex, the registry read API (Names, Sources, ByName, BySource, Lints, Filter, WriteJSON, ...) or any lint's constructor/Configure/CheckApplies/Execute *)\n")
         f.write("Definition entry_global_writes : list bytes := %s.\n" % cq_list([cq_bytes(x) for x in gw]))
         f.write("Lemma no_shared_writes : match entry_global_writes with nil => true | _ => false end = true.\nProof. vm_compute. reflexivity. Qed.\n")
         f.write("(* every lock operation reachable from them, in source order *)\n")
